@@ -77,7 +77,7 @@ def prodSexp (p : Pyx.OalTrack.Prod) : Sexp :=
 
 /-- the generic regex engine is run on texts up to this length (its cost on unterminated-comment families is
     quadratic with a large constant; longer texts are timing cases of the real lexer) -/
-def rxLimit : Nat := 2500
+def rxLimit : Nat := 1200
 
 /-- the generic engine is run on the rule table only while every regex of the table is one of the modelled ones: on
     another regex it may - faithfully, like `re` - backtrack exponentially (nested repetitions, overlapping
